@@ -46,3 +46,17 @@ func isContentCell(c string) bool { return kindContentCells[c] || tableContentCe
 var representationOnly = map[string]bool{
 	"(*roaring.Bitmap).RunOptimize": true,
 }
+
+// Operations whose result (or receiver, when in place) may be the empty set although both
+// operands are non-empty. Level 32: methods of roaring.container. Level 64: functions and methods of
+// the 32-bit package applied to buckets.
+var mayEmptyKernel32 = map[string]bool{
+	"and": true, "iand": true, "andNot": true, "iandNot": true, "xor": true, "ixor": true,
+	"not": true, "inot": true, "iremoveRange": true, "iremoveReturnMinimized": true,
+}
+var mayEmptyBucket64 = map[string]bool{
+	"roaring.And": true, "roaring.AndNot": true, "roaring.Xor": true, "roaring.Flip": true, "roaring.FlipInt": true,
+	"(*roaring.Bitmap).And": true, "(*roaring.Bitmap).AndNot": true, "(*roaring.Bitmap).Xor": true,
+	"(*roaring.Bitmap).Remove": true, "(*roaring.Bitmap).CheckedRemove": true, "(*roaring.Bitmap).RemoveRange": true,
+	"(*roaring.Bitmap).Flip": true, "(*roaring.Bitmap).FlipInt": true, "(*roaring.Bitmap).AndAny": true,
+}
